@@ -855,6 +855,19 @@ impl<EC: EvalCache> Program<EC> {
 
         if is_nickel {
             self.vm_ctxt.import_resolver.parse_to_ast(self.main_id)?;
+        } else {
+            // There is nothing to typecheck in a data file (JSON, YAML, TOML, ...), and it has no
+            // entry in the AST cache. We still parse it, so that syntax errors are reported.
+            let format = self
+                .vm_ctxt
+                .import_resolver
+                .input_format(self.main_id)
+                .unwrap_or_default();
+            self.vm_ctxt.import_resolver.parse_to_term(
+                &mut self.vm_ctxt.pos_table,
+                self.main_id,
+                format,
+            )?;
         }
 
         for source in self.contracts.iter() {
@@ -867,12 +880,15 @@ impl<EC: EvalCache> Program<EC> {
         }
 
         self.vm_ctxt.import_resolver.load_stdlib()?;
-        self.vm_ctxt
-            .import_resolver
-            .typecheck(self.main_id, initial_mode)
-            .map_err(|cache_err| {
-                cache_err.unwrap_error("program::typecheck(): expected source to be parsed")
-            })?;
+
+        if is_nickel {
+            self.vm_ctxt
+                .import_resolver
+                .typecheck(self.main_id, initial_mode)
+                .map_err(|cache_err| {
+                    cache_err.unwrap_error("program::typecheck(): expected source to be parsed")
+                })?;
+        }
 
         for source in self.contracts.iter() {
             match source {
